@@ -76,6 +76,12 @@ def analyse(F, s, classes):
                     if b["end"] == ("len", arr) and (okb in (None, b["array"][1])):
                         okb = b["array"][1]
                         continue
+                if b and b["array"] is None and b["start"] == cu(0) and isinstance(b["end"], tuple) and b["end"][0] == "len" \
+                        and isinstance(b["end"][1], tuple) and b["end"][1][0] == "pre" and b["end"][1][1].count(".") == 1:
+                    nm_ = b["end"][1][1].split(".", 1)[1]  # an index counted from 0 up to the buffer's length
+                    if okb in (None, nm_):
+                        okb = nm_
+                        continue
                 okb = False
                 break
             if okb:
@@ -145,6 +151,9 @@ def _is_wrap(t, c, pf):
     a, pol = lit(("<", inc, pp))
     if t[1] == a:
         return (t[2], t[3]) == ((inc, cu(0)) if pol else (cu(0), inc))
+    a, pol = lit(("<=", pp, inc))  # the inverted test `c + 1 >= period`
+    if t[1] == a:
+        return (t[2], t[3]) == ((cu(0), inc) if pol else (inc, cu(0)))
     return False
 
 
@@ -174,7 +183,8 @@ def _try_cursor(ts, x, posts, P, usize_state):
             if leaf == inc:
                 ok = False
                 for pf in P:
-                    if has_fact(conds, ("<", inc, ("pre", "self." + pf))):
+                    pp_ = ("pre", "self." + pf)
+                    if has_fact(conds, ("<", inc, pp_)) or has_fact(conds, ("<=", pp_, inc), want=False):
                         ok = True
                         pf_used = pf
                 if ok:
